@@ -540,6 +540,38 @@ func TestC12(t *testing.T) {
 		}
 		ev.Exhaustive("string_predicate_table", int64(i))
 	})
+	t.Run("many_distinct_patterns", func(t *testing.T) {
+		// like_regex stays right however many different patterns this process has evaluated before
+		// (anything remembered between calls - a cache of compiled patterns, say - must not go stale)
+		b := ev.enum(t)
+		n := 6000
+		if thorough() {
+			n = 40000
+		}
+		for pass := 0; pass < 2; pass++ {
+			for i := 0; i < n; i++ {
+				if !mine(i) && pass == 0 {
+					// every shard evaluates all patterns in the second pass, a quarter of them in the first
+					continue
+				}
+				c := StrPredCase{Kind: "regex", Subject: CVal{Kind: "str", Text: fmt.Sprintf("k%dz", i)}, Arg: fmt.Sprintf("^k%dz$", i), Flags: []string{"", "i", "q"}[i%3]}
+				if c.Flags == "q" {
+					c.Arg = fmt.Sprintf("k%dz", i)
+				}
+				if i%5 == 0 {
+					c.Subject.Text = fmt.Sprintf("k%dz", i+1) // a near miss: false
+				}
+				if pass == 0 {
+					ev.Eval(fmt.Sprintf("many:%d", i), true)
+				}
+				if v := checkStrPred(c); v != nil {
+					b.Check("c12.strpred", c, v)
+					return
+				}
+			}
+		}
+		ev.Exhaustive("distinct_patterns_evaluated_twice", int64(n))
+	})
 	ev.rapidProp(t, "sequences", func(rt *rapid.T) {
 		pick := func(l string) CVal { return corpus[rapid.IntRange(0, len(corpus)-1).Draw(rt, l)] }
 		var same []CVal // bias: operands of the same kind so that true/false (not only unknown) occur
